@@ -22,15 +22,14 @@ import json
 import logging
 import multiprocessing as mp
 import random
-import ssl
 
 from . import known, tlc
 
-LABELS = {"MCLabels12": ["a", "b", "ab", "*", "a*", "*a", "a*b", "**", "xn--a", "xn--*", "", "A"],
+LABELS = {"MCLabels14": ["a", "b", "ab", "*", "a*", "*a", "a*b", "**", "xn--a", "xn--*", "", "A", "XN--*", "XN--a"],
           "MCLabels8": ["a", "b", "*", "a*", "**", "xn--a", "", "A"],
           "MCLabels6": ["a", "*", "*a", "xn--a", "", "A"],
           "MCLabels5": ["a", "*", "a*", "xn--a", ""]}
-TRLABELS = {"MCLabels12": "TrLabels12", "MCLabels8": "TrLabels8", "MCLabels6": "TrLabels6", "MCLabels5": "TrLabels5"}
+TRLABELS = {"MCLabels14": "TrLabels14", "MCLabels8": "TrLabels8", "MCLabels6": "TrLabels6", "MCLabels5": "TrLabels5"}
 # canonical lower-case literals, used verbatim as the "plain" spelling (3 is the IPv4-mapped form of 1)
 ADDRS = {1: "10.0.0.1", 2: "fe80::1", 3: "::ffff:a00:1", 4: "10.0.0.2", 5: "2001:db8::5", 6: "192.168.1.9",
          7: "::1"}
@@ -50,9 +49,22 @@ BASE = """CONSTANTS Labels <- {labels}
   ShardS = {s}
 CHECK_DEADLOCK FALSE
 """
-PAIR_INVS = ["PairRefWellDefined", "PairMatcherAcceptsStrict", "PairMatcherRejectsForbidden", "PairErrIffTooMany"]
-LIST_INVS = ["ListRefWellDefined", "ListRejectsForbidden", "ListAcceptsStrict", "ListAcceptsStrictExceptAbort",
-             "ListCommonNameInert", "ListOrderIrrelevant"]
+# checked with KnownDefects = AllDefects (MATCHER = the code as it is): the repaired design is inside RULES, the
+# code leaves RULES only on the recorded input classes; *_EXPECTED_TO_FAIL are shown to fail in a separate run
+PAIR_INVS = ["PairRefWellDefined", "PairMatcherAcceptsStrict", "PairErrIffTooMany", "PairRepairedWithinRules",
+             "PairDeviatesOnlyAsRecorded"]
+PAIR_EXPECTED_TO_FAIL = ["PairMatcherRejectsForbidden"]
+LIST_INVS = ["ListRefWellDefined", "ListRepairedWithinRules", "ListDeviatesOnlyAsRecorded", "ListCommonNameInert",
+             "ListOrderIrrelevant"]
+LIST_EXPECTED_TO_FAIL = ["ListRejectsForbidden", "ListAcceptsStrict"]
+PAIR_CLAUSES = {"none", "OutsideLiberal", "TooManyWildcards", "WildcardOutsideLeftmost", "WildcardEmptyLabel",
+                "WildcardInALabel"}
+LIST_CLAUSES = {"none", "NotAnIdentity", "DnsEntryVsIpHost", "IpEntryVsDnsHost", "IpNotByValue", "OutsideLiberal",
+                "TooManyWildcards", "WildcardOutsideLeftmost", "CommonNameWhenSansExist", "CommonNameNotEnabled",
+                "CommonNameVsIpHost", "NoIdentity", "CommonNameOutsideLiberal", "CommonNameTooManyWildcards",
+                "CommonNameWildcardInALabel"}
+ACE = "/uppercase-ace-prefix-wildcard"
+POISON = "/multi-wildcard-entry-before-match"
 FP_INVS = ["FpMatcherIsRules", "FpTrueDigestAccepted", "FpOtherLengthRejected", "FpWrongNibbleRejected",
            "FpIntactRightLengthAccepted"]
 TRACE_CFG = """SPECIFICATION TSpec
@@ -71,7 +83,7 @@ CHECK_DEADLOCK FALSE
 
 
 def cfg(spec, invs=(), props=(), view=None, **kw):
-    d = dict(labels="MCLabels12", ml=2, kd="NoDefects", re="MCEntries", rh="MCHosts", ms=2, fd=1, fs=8, k=1, s=0)
+    d = dict(labels="MCLabels14", ml=2, kd="AllDefects", re="MCEntries", rh="MCHosts", ms=2, fd=1, fs=8, k=1, s=0)
     d.update(kw)
     t = "SPECIFICATION " + spec + "\n" + BASE.format(**d)
     t += "".join("INVARIANT " + i + "\n" for i in invs) + "".join("PROPERTY " + p + "\n" for p in props)
@@ -230,17 +242,18 @@ def _pair_shard(args):
     plan, s = args
     hosts = domain(plan["labels"], plan["ml"])
     hset = set(hosts)
-    st = dict(entries=0, calls=0, bad=[], drift=[], nontriv=set(), traces=[], must=0, either=0, samples=[])
+    st = dict(entries=0, calls=0, bad=[], drift=[], nontriv=set(), traces=[], must=0, either=0, samples=[], rc=set())
 
     def on_line(ln):
         if not ln.startswith('<<"HM"'):
             return False
         for rec in tlc.tagged_json(ln, "HM"):
             dn = rec["dn"]
-            must, either, macc = set(rec["must"]), set(rec["either"]), set(rec["macc"])
+            must, either, macc, ace = set(rec["must"]), set(rec["either"]), set(rec["macc"]), set(rec["ace"])
             if rec["nhosts"] != len(hosts) or not (must | either) <= hset:
                 raise tlc.MachineryError(f"host domain mismatch for entry {dn!r}")
             st["entries"] += 1
+            st["rc"].update(rec["rc"])
             st["must"] += len(must)
             st["either"] += len(either)
             by_acc = {}
@@ -251,9 +264,10 @@ def _pair_shard(args):
                 for h in must - acc:
                     st["bad"].append(("MustAccept:Strict", {"kind": "pair", "dn": dn, "host": h, "via": via}))
                 for h in acc - must - either:
-                    st["bad"].append(("MustReject", {"kind": "pair", "dn": dn, "host": h, "via": via}))
-                if acc != must | macc and len(st["drift"]) < 5:
-                    st["drift"].append(f"entry {dn!r} via {via}: code accepts {sorted(acc ^ (must | macc))[:4]} "
+                    st["bad"].append(("MustReject" + (ACE if h in ace else ""),
+                                      {"kind": "pair", "dn": dn, "host": h, "via": via}))
+                if acc != macc and len(st["drift"]) < 5:
+                    st["drift"].append(f"entry {dn!r} via {via}: code accepts {sorted(acc ^ macc)[:4]} "
                                        f"differently from MATCHER")
                 st["nontriv"].update((dn, h) for h in acc | must | either)
             for acc, vias in by_acc.items():
@@ -264,7 +278,7 @@ def _pair_shard(args):
                                       "code_accepts": sorted(acc)[:12]})
         return True
 
-    r = tlc.run("MC_HostMatch", cfg("PairsSpec", ["EmitPairs"], labels=plan["labels"], ml=plan["ml"], k=NSHARD, s=s),
+    r = tlc.run("MC_HostMatch", cfg("PairsSpec", ["EmitPairs"], labels=plan["labels"], ml=plan["ml"], k=plan["k"], s=s),
                 workers=1, on_line=on_line, timeout=7200)
     bad, done = judge({"traces": st["traces"]}, plan["labels"], plan["ml"])
     st["verdicts"] = [(c, {"kind": "pair", "dn": syms_name(st["traces"][tid - 1]["dn"]), "host": h,
@@ -290,8 +304,9 @@ def run_list_cases(entries, hosts, cns, san_idx, cases):
 
 
 def _facts(clause):
+    """"MustReject:WildcardInALabel/uppercase-ace-prefix-wildcard" -> verdict, clause, input class (named by TLC)."""
     base, _, cls = clause.partition("/")
-    return {"clause": base, "class": cls}
+    return {"clause": base, "verdict": base.partition(":")[0], "class": cls}
 
 
 def _list_shard(args):
@@ -308,9 +323,9 @@ def _list_shard(args):
         got["recs"].extend(tlc.tagged_json(ln, "LS"))
         return True
 
-    r = tlc.run("MC_HostMatch", cfg("ListsSpec", ["EmitLists"], ms=plan["ms"], re=plan["re"], rh=plan["rh"], kd="AbortDefect",
-                                    k=NSHARD, s=s), workers=1, on_line=on_line, timeout=7200)
-    return {"dom": got["dom"], "pending": got["recs"], "distinct": r.distinct}
+    r = tlc.run("MC_HostMatch", cfg("ListsSpec", ["EmitLists"], ms=plan["ms"], re=plan["re"], rh=plan["rh"], k=plan["k"], s=s), workers=1, on_line=on_line, timeout=7200)
+    return {"dom": got["dom"], "pending": got["recs"], "distinct": r.distinct,
+            "rc": sorted({c for rec in got["recs"] for c in rec["rc"]})}
 
 
 def _list_replay(args):
@@ -327,13 +342,13 @@ def _list_replay(args):
         st["lists"] += 1
         st["calls"] += len(res)
         for h, c, on, api, acc in res:
-            o = exp.get((h, c, on, api), {"cls": "mustnot", "m": False, "p": False})
+            o = exp.get((h, c, on, api), {"cls": "mustnot", "m": False, "p": False, "a": False})
             case = {"kind": "list", "entries": [entries[i - 1] for i in rec["san"]], "host": hosts[h - 1],
                     "cn": cns[c - 1] if c else [], "on": on, "api": api}
             if o["cls"] == "must" and not acc:
-                st["bad"].append(("MustAccept" + ("/multi-wildcard-entry-before-match" if o["p"] else ""), case))
+                st["bad"].append(("MustAccept" + (POISON if o["p"] else ""), case))
             elif o["cls"] == "mustnot" and acc:
-                st["bad"].append(("MustReject", case))
+                st["bad"].append(("MustReject" + (ACE if o["a"] else ""), case))
             elif acc != o["m"] and len(st["drift"]) < 5:
                 st["drift"].append(f"list {rec['san']} case {(h, c, on, api)}: code {acc}, MATCHER {o['m']}")
             if o["cls"] != "mustnot" or acc:
@@ -367,7 +382,7 @@ def _rand_name(rng, ls, maxl):
 def _rand_list_shard(args):
     seed, n = args
     rng = random.Random(seed)
-    ls = LABELS["MCLabels12"] + ["B", "aB", "XN--a", "b*"]
+    ls = LABELS["MCLabels14"] + ["B", "aB", "b*", "Xn--a*"]
     entries, hosts, cns, traces = [], [], [], []
     calls = 0
     nontriv = set()
@@ -442,15 +457,28 @@ ALGS = (("md5", 32), ("sha1", 40), ("sha256", 64))
 
 
 def make_blobs(seed):
-    import trustme
-    ca = trustme.CA()
-    leaf = ca.issue_cert("a.b", "*.b", "10.0.0.1")
-    ders = [ssl.PEM_cert_to_DER_cert(ca.cert_pem.bytes().decode()),
-            ssl.PEM_cert_to_DER_cert(leaf.cert_chain_pems[0].bytes().decode())]
-    # a fixed, public, syntactically real DER prefix is not needed: digests are opaque.  One blob is derived
-    # from the seed so that every seed sees other nibbles.
-    ders.append(ders[0] + hashlib.sha256(str(seed).encode()).digest())
-    return ders
+    """Three byte strings standing for DER certificates (assert_fingerprint hashes, it never parses), derived from
+    the seed so that every seed sees other nibbles and the same seed sees the same pins."""
+    out = []
+    for i in range(3):
+        body = b"".join(hashlib.sha256(f"C08/{seed}/{i}/{j}".encode()).digest() for j in range(12 + 7 * i))
+        out.append(b"\x30\x82" + len(body).to_bytes(2, "big") + body)
+    return out
+
+
+def check_domain(dom):
+    """The list domain TLC emitted is the one the harness can realise: every ip host text is the literal of its
+    address id + spelling, some DNS entry spells an IP address that is also a host (the clause 'DNS entry against
+    IP host' is exercised on equal text), both APIs see bracketed literals."""
+    texts = {host_text(h) for h in dom["hosts"] if h["k"] == "ip"}
+    hsel = [dom["hosts"][i - 1] for i in dom["hsel"]]
+    esel = [dom["entries"][i - 1] for i in dom["esel"]]
+    if not any(h["k"] == "ip" and h["sp"] == "brack" for h in hsel) or not any(h["k"] == "ip" and h["sp"] == "zoned" for h in hsel):
+        raise tlc.MachineryError("list domain lacks bracketed / zoned literals")
+    if not any(e["t"] == "DNS" and (syms_name(e["n"]) in texts or syms_name(e["n"]).startswith("*.0")) for e in esel):
+        raise tlc.MachineryError("list domain lacks a DNS entry spelled like an IP host")
+    for e in esel:
+        entry_pair(e)
 
 
 def digests(der):
@@ -587,33 +615,52 @@ def describe(case):
     return f"pin {case['pin']!r} against a {len(case['der']) // 2}-byte DER blob"
 
 
+def _tlc_job(args):
+    """One stage-1 TLC run in a helper thread.  kind "check": must hold; kind "expect": MATCHER with the recorded
+    deviations must break exactly this clause (and the counter-example must show `needle`)."""
+    kind, name, spec, plan, invs, props, view, workers, needle = args
+    if kind == "check":
+        r = tlc.run("MC_HostMatch", cfg(spec, invs, props, view=view, **plan), workers=workers, heap="4g", timeout=7200)
+        return kind, name, plan, r
+    r = tlc.run("MC_HostMatch", cfg(spec, invs, **plan), workers=1, expect_fail=True, heap="2g")
+    if r.violated != list(invs) or (needle or "") not in r.out:
+        raise tlc.MachineryError(f"{name}: the recorded deviations were expected to break {invs} on an input holding "
+                                 f"{needle}; TLC says {r.violated}\n{r.out[-1500:]}")
+    return kind, name, plan, r
+
+
 def run(rep):
+    import time
+    from concurrent.futures import ThreadPoolExecutor
     quick = rep.tier == "quick"
     findings = known.load("C08")
     rep.rule = ("pairs: every (entry, host) over the label alphabet is replayed through match_hostname (SAN), "
                 "_match_hostname (SAN) and the commonName path; lists: every SAN list over the representative "
                 "typed entries x CN x host x switch x api, plus seeded random lists; pins: every pin of the "
-                "perturbation graph x 3 DER blobs plus seeded random perturbation chains.  A case is non-trivial "
+                "perturbation graph x 3 blobs plus seeded random perturbation chains.  A case is non-trivial "
                 "when the reference does not class it must-reject or the code accepts it (pairs / lists), or when "
                 "the pin differs from the unperturbed digest (pins); distinct by (entry, host) / (list, case) / pin")
-    rep.assumptions = ["digests are opaque: hashlib computes them, TLC only compares normalised symbol sequences",
-                       "IP addresses are opaque ids in the spec; the harness maps id+spelling to literals and "
-                       "ipaddress decides nothing in the oracle", "TLC 1.8 and CPython are trusted",
-                       "the anchored regex of _dnsname_match is transcribed label-wise in MATCHER"]
-    pair_plans = ([dict(labels="MCLabels12", ml=2), dict(labels="MCLabels8", ml=3)] if quick else
-                  [dict(labels="MCLabels12", ml=3), dict(labels="MCLabels5", ml=4)])
+    rep.assumptions = ["digests are opaque: hashlib computes them, TLC only compares normalised symbol sequences; the "
+                       "'certificates' handed to assert_fingerprint are seeded byte strings (it never parses DER)",
+                       "IP addresses are opaque ids in the spec (equal id <=> equal value); the harness maps id + "
+                       "spelling to the literal, checks that the text TLC sees is that literal, and ipaddress decides "
+                       "nothing in the oracle", "TLC 1.8 and CPython are trusted",
+                       "the anchored regex of _dnsname_match is transcribed label-wise in MATCHER",
+                       "a bracketed literal handed to the raw match_hostname is not an IP host (latitude, HostMatch.tla "
+                       "RefKind); a commonName never counts for an IP host"]
+    nsh = 2 if quick else NSHARD
+    w1 = 4 if quick else "auto"
+    pair_plans = ([dict(labels="MCLabels14", ml=2), dict(labels="MCLabels6", ml=3)] if quick else
+                  [dict(labels="MCLabels14", ml=3), dict(labels="MCLabels5", ml=4)])
     list_plan = dict(ms=2, re="MCEntriesQ", rh="MCHostsQ") if quick else dict(ms=3, re="MCEntries", rh="MCHosts")
+    small_list_plan = dict(ms=2, re="MCEntriesQ", rh="MCHostsQ")
     fp_plan = dict(fd=2, fs=8) if quick else dict(fd=2, fs=1)
     tallies = {"pairs": [0, 0, 0, 0], "lists": [0, 0, 0, 0], "pins": [0, 0, 0, 0]}
-
-    import time
-    phases, last = {}, [time.time()]
-    rep.extra["phase_wall_s"] = phases
+    t0 = time.time()
+    phases = rep.extra["finished_at_s"] = {}
 
     def tick(name):
-        now = time.time()
-        phases[name] = round(phases.get(name, 0) + now - last[0], 1)
-        last[0] = now
+        phases[name] = round(time.time() - t0, 1)
 
     def add_tally(k, t):
         tallies[k] = [a + b for a, b in zip(tallies[k], t)]
@@ -631,88 +678,30 @@ def run(rep):
         for clause, case in o["verdicts"]:          # stage 4: TLC's judgement of the recorded verdicts
             _report(rep, findings, clause, case, "TLC rejected the recorded verdict (" + what + ")")
 
-    with mp.Pool(NSHARD) as pool:
-        # ---- stage 1
-        pairs_checked = 0
-        for plan in pair_plans:
-            r = tlc.run("MC_HostMatch", cfg("PairsSpec", PAIR_INVS, **plan), workers="auto", timeout=7200)
-            rep.add_tlc(f"PairsSpec {plan}", r)
-            if r.violated:
-                rep.violation("MatcherVsRules", f"TLC: {r.violated} violated in PairsSpec {plan}", None)
-            n = len(domain(plan["labels"], plan["ml"]))
-            if r.distinct != n + 1:
-                raise tlc.MachineryError(f"PairsSpec explored {r.distinct} states, expected {n + 1}")
-            pairs_checked += n * n
-        rep.extra["stage1_pairs_checked"] = pairs_checked
-        r = tlc.run("MC_HostMatch", cfg("ListsSpec", LIST_INVS, kd="NoDefects", **list_plan), workers="auto")
-        rep.add_tlc(f"ListsSpec KnownDefects={{}} {list_plan}", r)
-        if r.violated:
-            rep.violation("MatcherVsRules", f"TLC: {r.violated} violated in the repaired list design", None)
-        r = tlc.run("MC_HostMatch", cfg("ListsSpec", [i for i in LIST_INVS if i != "ListAcceptsStrict"],
-                                        kd="AbortDefect", **list_plan), workers="auto")
-        rep.add_tlc(f"ListsSpec KnownDefects={{ABORT}} {list_plan}", r)
-        if r.violated:
-            rep.violation("MatcherVsRules", f"TLC: {r.violated} violated in ListsSpec with ABORT", None)
-        r = tlc.run("MC_HostMatch", cfg("ListsSpec", ["ListAcceptsStrict"], kd="AbortDefect", **list_plan),
-                    workers="auto", expect_fail=True)
-        if r.violated != ["ListAcceptsStrict"] or '"*", "*"' not in r.out:
-            raise tlc.MachineryError(f"the ABORT deviation was expected to break exactly ListAcceptsStrict on a "
-                                     f"multi-wildcard entry, TLC says {r.violated}")
-        rep.extra["stage1_expected_counterexample"] = "ListAcceptsStrict fails with KnownDefects={ABORT} (as recorded)"
-        # one worker: with a VIEW hiding the depth counter only strict BFS order makes the reached set
-        # deterministic (a pin first met at a larger depth would otherwise cut its successors off)
-        r = tlc.run("MC_HostMatch", cfg("FpSpec", FP_INVS, ["FpCaseColonBlind"], view="FpView", **fp_plan),
-                    workers=1)
-        rep.add_tlc(f"FpSpec {fp_plan}", r)
-        fp_states = r.distinct
-        if r.violated:
-            rep.violation("MatcherVsRules", f"TLC: {r.violated} violated in FpSpec", None)
+    # ---- stage 1 jobs (MATCHER |= RULES), run in helper threads next to the emission / replay shards.
+    # FpSpec uses one worker: with a VIEW hiding the depth counter only strict BFS order makes the reached set
+    # deterministic (a pin first met at a larger depth would otherwise cut its successors off).
+    jobs = [("check", "PairsSpec", "PairsSpec", plan, PAIR_INVS, (), None, w1, None) for plan in pair_plans]
+    jobs.append(("check", "ListsSpec", "ListsSpec", list_plan, LIST_INVS, (), None, w1, None))
+    jobs.append(("check", "FpSpec", "FpSpec", fp_plan, FP_INVS, ["FpCaseColonBlind"], "FpView", 1, None))
+    jobs.append(("expect", "PairsSpec", "PairsSpec", dict(labels="MCLabels14", ml=1), ["PairMatcherRejectsForbidden"],
+                 (), None, 1, '"X", "N"'))
+    jobs.append(("expect", "ListsSpec", "ListsSpec", small_list_plan, ["ListAcceptsStrict"], (), None, 1, '"*", "*"'))
+    jobs.append(("expect", "ListsSpec", "ListsSpec", small_list_plan, ["ListRejectsForbidden"], (), None, 1, None))
 
-        tick("stage1")
-        # ---- pairs: emission + replay + judgement, sharded
-        for plan in pair_plans:
-            outs = pool.map(_pair_shard, [(plan, s) for s in range(NSHARD)])
-            n = len(domain(plan["labels"], plan["ml"]))
-            if sum(o["entries"] for o in outs) != n:
-                raise tlc.MachineryError(f"pair emission incomplete: {sum(o['entries'] for o in outs)} of {n} entries")
-            if sum(o["calls"] for o in outs) != n * n * len(VIAS):
-                raise tlc.MachineryError("pair replay incomplete")
-            if not sum(o["must"] for o in outs) or not sum(o["either"] for o in outs):
-                raise tlc.MachineryError("vacuous pair reference (no must-accept / either member)")
-            for o in outs:
-                absorb(o, "pairs")
-                add_tally("pairs", o["tally"])
-                for s in o["samples"]:
-                    rep.sample(s, cap=2)
-        tick("pairs")
-        # ---- lists
-        outs = pool.map(_list_shard, [(list_plan, s) for s in range(NSHARD)])
-        dom = outs[0]["dom"]
-        if not dom:
-            raise tlc.MachineryError("list domain was not emitted")
-        recs = [x for o in outs for x in o["pending"]]
-        if len(recs) != outs[0]["distinct"]:
-            raise tlc.MachineryError(f"list emission incomplete: {len(recs)} of {outs[0]['distinct']} lists")
-        rng = random.Random(rep.seed)
-        rng.shuffle(recs)
-        per = max(1, -(-len(recs) // (NSHARD * 2)))
-        outs = pool.map(_list_replay, [(dom, recs[i:i + per]) for i in range(0, len(recs), per)])
-        if sum(o["lists"] for o in outs) != len(recs):
-            raise tlc.MachineryError("list replay incomplete")
-        for o in outs:
-            absorb(o, "lists")
-            add_tally("lists", o["tally"])
-            for s in o["samples"][:1]:
-                rep.sample(s, cap=4)
-        tick("lists")
-        nr, pr = (3200, 200) if quick else (96000, 2000)
-        outs = pool.map(_rand_list_shard, [(rep.seed * 100003 + i, pr) for i in range(nr // pr)])
-        for o in outs:
-            absorb(o, "random lists")
-            add_tally("lists", o["tally"])
-        tick("random lists")
-        # ---- pins
+    with mp.Pool(NSHARD) as pool, ThreadPoolExecutor(len(jobs) + 1) as tp:
+        s1 = [tp.submit(_tlc_job, j) for j in jobs]
+        # ---- everything that does not depend on another result is submitted at once
+        pplans = [dict(plan, k=nsh) for plan in pair_plans]
+        pair_f = [[pool.apply_async(_pair_shard, ((plan, s),)) for s in range(nsh)] for plan in pplans]
+        lplan = dict(list_plan, k=nsh)
+        lemit_f = [pool.apply_async(_list_shard, ((lplan, s),)) for s in range(nsh)]
+        nr, pr = (2400, 800) if quick else (96000, 2000)
+        rlist_f = [pool.apply_async(_rand_list_shard, ((rep.seed * 100003 + i, pr),)) for i in range(nr // pr)]
         ders = make_blobs(rep.seed)
+        nr, pr = (2, 900) if quick else (64, 1500)
+        rpin_f = [pool.apply_async(_fp_random, ((rep.seed * 7919 + i, pr, ders),)) for i in range(nr)]
+        # ---- pins: emission (here), replay + judgement (shards)
         fprecs = []
 
         def on_line(ln):
@@ -721,13 +710,87 @@ def run(rep):
             fprecs.extend(tlc.tagged_json(ln, "FP"))
             return True
         r = tlc.run("MC_HostMatch", cfg("FpSpec", ["EmitFp"], view="FpView", **fp_plan), workers=1, on_line=on_line)
-        if len(fprecs) != r.distinct or r.distinct != fp_states:
-            raise tlc.MachineryError(f"pin emission incomplete: {len(fprecs)} of {r.distinct} / {fp_states}")
+        fp_emitted = r.distinct
+        if len(fprecs) != r.distinct:
+            raise tlc.MachineryError(f"pin emission incomplete: {len(fprecs)} of {r.distinct}")
         if not any(p["acc"] and p["d"] > 0 for p in fprecs) or \
                 {p["clause"] for p in fprecs} != {"none", "PinOfOtherLength", "DigestDiffers"}:
             raise tlc.MachineryError("vacuous pin reference")
-        per = max(1, -(-len(fprecs) // NSHARD))
-        outs = pool.map(_fp_replay, [(fprecs[i:i + per], ders, rep.seed) for i in range(0, len(fprecs), per)])
+        per = max(1, -(-len(fprecs) // nsh))
+        pin_f = [pool.apply_async(_fp_replay, ((fprecs[i:i + per], ders, rep.seed),)) for i in range(0, len(fprecs), per)]
+        tick("pin emission")
+        # ---- lists: emission shards -> replay + judgement shards
+        outs = [f.get() for f in lemit_f]
+        dom = outs[0]["dom"]
+        if not dom:
+            raise tlc.MachineryError("list domain was not emitted")
+        check_domain(dom)
+        recs = [x for o in outs for x in o["pending"]]
+        seen = {c for o in outs for c in o["rc"]}
+        if not LIST_CLAUSES <= seen:
+            raise tlc.MachineryError(f"list reference never uses the clauses {sorted(LIST_CLAUSES - seen)}")
+        rep.extra["list_reject_clauses_exercised"] = sorted(seen - {"none"})
+        nlists = outs[0]["distinct"]
+        if len(recs) != nlists:
+            raise tlc.MachineryError(f"list emission incomplete: {len(recs)} of {nlists} lists")
+        random.Random(rep.seed).shuffle(recs)
+        per = max(1, -(-len(recs) // (nsh * 2)))
+        list_f = [pool.apply_async(_list_replay, ((dom, recs[i:i + per]),)) for i in range(0, len(recs), per)]
+        tick("list emission")
+
+        # ---- collect, in a fixed order
+        pairs_checked = 0
+        for kind, name, plan, r in [f.result() for f in s1]:
+            if kind == "expect":
+                rep.extra.setdefault("stage1_expected_counterexamples", []).append(
+                    f"{r.violated[0]} fails in {name} with KnownDefects = the recorded deviations (as recorded)")
+                continue
+            rep.add_tlc(f"{name} {plan}", r)
+            if r.violated:
+                rep.violation("MatcherVsRules", f"TLC: {r.violated} violated in {name} {plan}", None)
+            if name == "PairsSpec":
+                n = len(domain(plan["labels"], plan["ml"]))
+                if r.distinct != n + 1:
+                    raise tlc.MachineryError(f"PairsSpec explored {r.distinct} states, expected {n + 1}")
+                pairs_checked += n * n
+            elif name == "ListsSpec" and r.distinct != nlists:
+                raise tlc.MachineryError(f"ListsSpec explored {r.distinct} lists, emission {nlists}")
+            elif name == "FpSpec" and r.distinct != fp_emitted:
+                raise tlc.MachineryError(f"FpSpec explored {r.distinct} pins, emission {fp_emitted}")
+        rep.extra["stage1_pairs_checked"] = pairs_checked
+        tick("stage1")
+        for plan, fs in zip(pplans, pair_f):
+            outs = [f.get() for f in fs]
+            n = len(domain(plan["labels"], plan["ml"]))
+            if sum(o["entries"] for o in outs) != n:
+                raise tlc.MachineryError(f"pair emission incomplete: {sum(o['entries'] for o in outs)} of {n} entries")
+            if sum(o["calls"] for o in outs) != n * n * len(VIAS):
+                raise tlc.MachineryError("pair replay incomplete")
+            if not sum(o["must"] for o in outs) or not sum(o["either"] for o in outs):
+                raise tlc.MachineryError("vacuous pair reference (no must-accept / either member)")
+            seen = {c for o in outs for c in o["rc"]}
+            if not PAIR_CLAUSES <= seen:
+                raise tlc.MachineryError(f"pair reference never uses the clauses {sorted(PAIR_CLAUSES - seen)}")
+            rep.extra["pair_reject_clauses_exercised"] = sorted(seen - {"none"})
+            for o in outs:
+                absorb(o, "pairs")
+                add_tally("pairs", o["tally"])
+                for s in o["samples"]:
+                    rep.sample(s, cap=2)
+        tick("pairs")
+        outs = [f.get() for f in list_f]
+        if sum(o["lists"] for o in outs) != len(recs):
+            raise tlc.MachineryError("list replay incomplete")
+        for o in outs:
+            absorb(o, "lists")
+            add_tally("lists", o["tally"])
+            for s in o["samples"][:1]:
+                rep.sample(s, cap=4)
+        for o in [f.get() for f in rlist_f]:
+            absorb(o, "random lists")
+            add_tally("lists", o["tally"])
+        tick("lists")
+        outs = [f.get() for f in pin_f]
         if sum(o["calls"] for o in outs) != len(fprecs) * len(ders):
             raise tlc.MachineryError("pin replay incomplete")
         for o in outs:
@@ -735,13 +798,10 @@ def run(rep):
             add_tally("pins", o["tally"])
             for s in o["samples"][:1]:
                 rep.sample(s, cap=6)
-        tick("pins")
-        nr, pr = (16, 150) if quick else (64, 1500)
-        outs = pool.map(_fp_random, [(rep.seed * 7919 + i, pr, ders) for i in range(nr)])
-        for o in outs:
+        for o in [f.get() for f in rpin_f]:
             absorb(o, "random pins")
             add_tally("pins", o["tally"])
-    tick("random pins")
+        tick("pins")
     for k, t in tallies.items():
         rep.extra[k + "_judged_by_tlc"] = {"cases": t[0], "must_accept": t[1], "must_reject": t[2], "either": t[3]}
         if not t[1] or not t[2] or (k != "pins" and not t[3]):
